@@ -29,6 +29,7 @@ RULE = ('case = (sort or mergesort; 1..3 source tables over the conservative '
         'delivered row is compared with the reference sort after every '
         'step. Non-trivial: at least 2 data rows. Distinct: by digest of the '
         'whole case.')
+STATES = 'operation x number of chunk files seen (capped at 5) x cache flag'
 COMPONENTS = {
     'real': ['petl sort/mergesort/SortView/_mergesorted/_Keyed', 'pickle',
              'real chunk files in a private directory'],
